@@ -68,6 +68,8 @@ pub struct ProgGen<'a> {
     pub next_slot: u32,
     pub cont_depth: u32,
     pub budget: i32,
+    /// abort handles generated so far in this program (enclosing commands first)
+    pub handles_so_far: Vec<u32>,
 }
 
 impl<'a> ProgGen<'a> {
@@ -82,6 +84,7 @@ impl<'a> ProgGen<'a> {
             next_slot: base,
             cont_depth: 0,
             budget: 40,
+            handles_so_far: vec![],
         }
     }
 
@@ -195,6 +198,7 @@ impl<'a> ProgGen<'a> {
             12 => {
                 self.next_handle += 1;
                 let h = self.next_handle;
+                self.handles_so_far.push(h);
                 Cmd::Abortable(h, Box::new(self.cmd(depth - 1)))
             }
             _ => Cmd::Legacy(self.task(depth.min(2), true)),
@@ -206,6 +210,18 @@ impl<'a> ProgGen<'a> {
         let n = self.rng.range(1, 4) as usize;
         let stmts = self.stmts(n, depth, legacy, &mut vec![]);
         Task { label, stmts }
+    }
+
+    /// a branch of a join / select: may await join handles of the enclosing task (a join handle
+    /// awaited together with something else)
+    fn branch_task(&mut self, depth: u32, legacy: bool, inherited: &[(u32, bool)]) -> Task {
+        let mut t = self.task(depth, legacy);
+        if !legacy && !inherited.is_empty() && self.rng.chance(1, 2) {
+            let s = inherited[self.rng.usize_below(inherited.len())].0;
+            let at = self.rng.usize_below(t.stmts.len() + 1);
+            t.stmts.insert(at, Stmt::Join(s));
+        }
+        t
     }
 
     /// `slots`: slots spawned earlier in this statement list, with "a blocking statement has
@@ -238,6 +254,9 @@ impl<'a> ProgGen<'a> {
                 if self.cfg.select {
                     opts.push((2, 8));
                 }
+            }
+            if !legacy && self.cfg.abort_cmd && !self.handles_so_far.is_empty() && self.cont_depth == 0 {
+                opts.push((2, 12));
             }
             if !legacy && !slots.is_empty() {
                 opts.push((3, 5));
@@ -286,15 +305,17 @@ impl<'a> ProgGen<'a> {
                 7 => {
                     let k = self.rng.range(1, 3) as usize;
                     slots.iter_mut().for_each(|s| s.1 = true);
-                    Stmt::JoinAll((0..k).map(|_| self.task(depth - 1, legacy)).collect())
+                    let inh = slots.clone();
+                    Stmt::JoinAll((0..k).map(|_| self.branch_task(depth - 1, legacy, &inh)).collect())
                 }
                 8 => {
                     let k = self.rng.range(2, 3) as usize;
+                    let inh = slots.clone();
                     slots.iter_mut().for_each(|s| s.1 = true);
                     // every branch must block on the shell first so that ties cannot arise at start
                     let ts = (0..k)
                         .map(|_| {
-                            let mut t = self.task(depth - 1, legacy);
+                            let mut t = self.branch_task(depth - 1, legacy, &inh);
                             t.stmts.insert(0, Stmt::Request(self.leaf()));
                             t
                         })
@@ -307,6 +328,10 @@ impl<'a> ProgGen<'a> {
                     let stages = self.stages(false, false);
                     slots.iter_mut().for_each(|s| s.1 = true);
                     Stmt::AwaitChain { first, stages }
+                }
+                12 => {
+                    let i = self.rng.usize_below(self.handles_so_far.len());
+                    Stmt::AbortCmd(self.handles_so_far[i])
                 }
                 _ => Stmt::HoldToken,
             };
